@@ -4,9 +4,11 @@ package main
 // the same client history is served twice and both transcripts are recorded in one "pair" line.
 
 import (
+	"encoding/json"
 	"fmt"
 	"hash/fnv"
 	"math/rand"
+	"os"
 
 	"git.defalsify.org/vise.git/state"
 	"git.defalsify.org/vise.git/vm"
@@ -166,3 +168,78 @@ func splitComma(s string) []string {
 }
 
 func init() { register("vise-pairs", cmdVisePairs) }
+
+// servePicks is serve() with the external results given explicitly (per request, in call order), as TLC histories do.
+func servePicks(p *Program, sid string, mode string, store dbLike, inputs []string, picks [][]int, out *ndw, stats *viseStats) []obsRec {
+	rec := &sessRec{prog: p, sid: sid, out: out, stats: stats}
+	var cur []int
+	h := newHost(p, rec, mode, store, func(sym string, n int) int {
+		if len(cur) == 0 {
+			return 0
+		}
+		i := cur[0]
+		cur = cur[1:]
+		return i
+	})
+	obs := []obsRec{}
+	for j, in := range inputs {
+		cur = nil
+		if j < len(picks) {
+			cur = append([]int{}, picks[j]...)
+		}
+		ev := h.request(in)
+		if inputClass(in) == "ok" {
+			obs = append(obs, obsRec{ev.Cont, ev.Err, ev.Ferr, ev.Out})
+			if ev.Panic != "" || !ev.Cont || ev.Err {
+				break
+			}
+		} else if ev.Panic != "" {
+			break
+		}
+	}
+	return obs
+}
+
+// vise-pairs-hist <program.json> <histories.ndjson> <trace-out> <stores>: every given history served by one long-lived
+// engine and by a fresh engine + Persister per request; one "pair" line each.
+func cmdVisePairsHist(args []string) error {
+	p, err := loadProgram(args[0])
+	if err != nil {
+		return err
+	}
+	out, err := newNdw(args[2])
+	if err != nil {
+		return err
+	}
+	defer out.close()
+	stores := splitComma(args[3])
+	vm.VerifHook = viseHook
+	stats := &viseStats{Pairs: map[string]int{}}
+	if p.MaxLevel > 0 {
+		state.MaxLevel = p.MaxLevel
+	} else {
+		state.MaxLevel = 128
+	}
+	null, _ := newNdw(os.DevNull)
+	defer null.close()
+	n := 0
+	err = eachLine(args[1], func(b []byte) error {
+		var h history
+		if err := json.Unmarshal(b, &h); err != nil {
+			return err
+		}
+		sid := fmt.Sprintf("%s.h%d", p.Name, n)
+		st := stores[n%len(stores)]
+		n++
+		a := servePicks(p, sid+".L", "L", newStore("mem", sid), h.Inputs, h.Picks, null, stats)
+		bs, cleanup := newStoreC(st, sid)
+		bb := servePicks(p, sid+".P", "P", bs, h.Inputs, h.Picks, null, stats)
+		cleanup()
+		out.put(pairEvent{Ev: "pair", Kind: "mode", Sid: sid, Store: st, Inputs: encAll(h.Inputs), Extra: []string{}, A: a, B: bb, ModeA: "L", ModeB: "P"})
+		return nil
+	})
+	summary(map[string]any{"pairs": n, "requests": stats.Requests, "iterations": stats.Iterations, "panics": stats.Panics, "events": out.n})
+	return err
+}
+
+func init() { register("vise-pairs-hist", cmdVisePairsHist) }
